@@ -286,23 +286,23 @@ func (m *Machine) pathModel() (Model, SatResult) {
 // ---------- path driver ----------
 
 type PathResult struct {
-	Harness  string
-	Prefix   []int64
-	Trace    []int64
-	End      *PathEnd
-	Viols    []*Violation
-	Alts     []workItem
-	Steps    int64
-	Model    Model // witness model of the complete path (for validation)
-	Nondets  []NondetRec
-	Events   []Event
-	Funcs    map[string]bool
-	Unknowns int
+	Harness        string
+	Prefix         []int64
+	Trace          []int64
+	End            *PathEnd
+	Viols          []*Violation
+	Alts           []workItem
+	Steps          int64
+	Model          Model // witness model of the complete path (for validation)
+	Nondets        []NondetRec
+	Events         []Event
+	Funcs          map[string]bool
+	Unknowns       int
 	QFeas, QAssert int
-	Implicit int
-	Inconclusive []string
-	NSym int // number of symbolic variables created
-	store *Store
+	Implicit       int
+	Inconclusive   []string
+	NSym           int // number of symbolic variables created
+	store          *Store
 }
 
 func (m *Machine) resetPath(h *Harness, prefix []int64, model Model) {
@@ -411,26 +411,27 @@ func (m *Machine) finishPath(res *PathResult, wantWitness bool) {
 // ---------- exploration of one harness ----------
 
 type HarnessResult struct {
-	Name        string
-	Paths       int
-	PathsOK     int
-	Infeasible  int
-	NoVariant   int
-	Steps       int64
-	Viols       []*FoundViolation
-	Unsupported []string
-	Inconclusive []string
-	Witnesses   []*PathResult
-	Funcs       map[string]bool
+	Name                     string
+	Paths                    int
+	PathsOK                  int
+	Infeasible               int
+	NoVariant                int
+	Steps                    int64
+	Viols                    []*FoundViolation
+	Unsupported              []string
+	Inconclusive             []string
+	Witnesses                []*PathResult
+	Funcs                    map[string]bool
 	QFeas, QAssert, Unknowns int
-	Implicit int
-	AssertsProved int
-	AssertLabels map[string]int
-	SymPaths    int // paths with at least one symbolic variable
-	Truncated   bool
-	UsedVariant bool
-	SolverTime  time.Duration
-	Wall        time.Duration
+	Implicit                 int
+	AssertsProved            int
+	AssertLabels             map[string]int
+	SymPaths                 int // paths with at least one symbolic variable
+	Truncated                bool
+	ThoroughBounds           bool // explored with vrt.Thorough() == true
+	UsedVariant              bool
+	SolverTime               time.Duration
+	Wall                     time.Duration
 }
 
 type FoundViolation struct {
@@ -447,6 +448,7 @@ type workItem struct {
 func (P *Program) Explore(h *Harness, workers int, maxPaths int, nWitness int) *HarnessResult {
 	t0 := time.Now()
 	hr := &HarnessResult{Name: h.Name, Funcs: map[string]bool{}, AssertLabels: map[string]int{}}
+	hr.ThoroughBounds = P.opts.Tier == "thorough" && !P.opts.ForceQuick
 	var mu sync.Mutex
 	cond := sync.NewCond(&mu)
 	stack := []workItem{{}}
@@ -534,7 +536,7 @@ func (P *Program) Explore(h *Harness, workers int, maxPaths int, nWitness int) *
 				}
 			}
 			stack = append(stack, res.Alts...)
-			if maxPaths > 0 && hr.Paths >= maxPaths && (len(stack) > 0 || active > 0) {
+			if ((maxPaths > 0 && hr.Paths >= maxPaths) || (P.opts.WallBudget > 0 && time.Since(t0) > P.opts.WallBudget)) && (len(stack) > 0 || active > 0) {
 				hr.Truncated = true
 				done = true
 			}
